@@ -128,6 +128,9 @@ def gen_history(rng, name, cap, n_msgs):
                 units.append(pre + 'ARG 999'); events.append(('err', '-120'))
             elif r < 0.62:
                 units.append(pre + 'VAL'); events.append(('err', '-113'))   # command form of a query-only node
+            elif r < 0.66:
+                # a parameter on a queue query: wrong parameter count, nothing is removed from the queue
+                units.append(pre + rng.choice(['SYST:ERR? 1', 'SYST:ERR:NEXT? 0', 'SYST:ERR:COUN? 2'])); events.append(('err', '-115'))
             elif r < 0.82:
                 units.append(pre + rng.choice(['SYST:ERR?', 'SYST:ERR:NEXT?', 'syst:err?', 'SYSTEM:ERROR:NEXT?'])); events.append(('next',))
             else:
